@@ -2,7 +2,7 @@
    documented-format model (Format.enc / Format.dec) and the certified judgement layout_ok. *)
 From Coq Require Import ZArith List Bool Lia.
 Import ListNotations.
-From XO Require Import Slots Strides BufOps Types Format Check LayoutProofs.
+From XO Require Import Slots Strides BufOps Types Format Check LayoutProofs RoundTrip.
 Open Scope Z_scope.
 
 (* what is written is read back: the reader of the documented format returns exactly the
@@ -13,6 +13,11 @@ Proof. exact dec_enc_scalar. Qed.
 Theorem C01_read_back_string : forall bs size img m off, size < 2^63 ->
   enc TString (VStr bs size) = Some img -> sits img m off -> dec TString m off = Some (VStr bs size, len img).
 Proof. exact dec_enc_string. Qed.
+(* the general statement: every type of the grammar, every value (nested structs, N-D arrays in any
+   axis order, arrays of strings ...): the reader returns exactly the value whose image was written *)
+Theorem C01_read_back : forall t v img m off,
+  enc t v = Some img -> sits img m off -> len img < 2^62 -> dec t m off = Some (v, len img).
+Proof. exact RT_all. Qed.
 (* a string created from a capacity is the empty string *)
 Theorem C01_capacity_reads_empty : forall cap img m off, 1 <= cap -> cap + 8 < 2^63 ->
   enc TString (VStr [] (cap + 8)) = Some img -> sits img m off -> dec TString m off = Some (VStr [] (cap + 8), len img).
@@ -37,3 +42,4 @@ Print Assumptions C01_capacity_reads_empty.
 Print Assumptions C01_strides_address.
 Print Assumptions C01_position_bijection.
 Print Assumptions C01_checker_sound.
+Print Assumptions C01_read_back.
